@@ -73,9 +73,13 @@ class MempoolRun(IndexRun):
 
             async def on_mempool(self, touched, height):
                 lab.on_handover(set(touched), height)
+                await lab.forward_on_mempool(touched, height)
         self.mempool = MemPool(self.coin, API(), refresh_secs=5.0)
         self.mp_event = asyncio.Event()
         self.mp_task = None
+
+    async def forward_on_mempool(self, touched, height):
+        pass
 
     def cleanup(self):
         try:
@@ -153,7 +157,7 @@ class MempoolRun(IndexRun):
                 exc = None if self.task.cancelled() else self.task.exception()
                 self.steps.append(self.classify_death(exc))
                 raise StopRun()
-            jobs = [j for j in self.loop.pending_jobs() if 'lookup' not in j.name and 'deserialize' not in j.name
+            jobs = [j for j in self.loop.pending_jobs() if self.is_bp_job(j)
                     and not (self.window and j is self.window['job'])]
             if jobs:
                 jobs[0].execute()
@@ -163,6 +167,15 @@ class MempoolRun(IndexRun):
             if g is None:
                 if self.window:
                     self.close_window()
+                    continue
+                # the block processor may be inside a notification (on_block awaits the fan-out to the
+                # sessions, whose status computations read the DB through worker jobs): let those run,
+                # jobs the schedule is holding back last
+                other = [j for j in self.loop.pending_jobs() if not self.is_bp_job(j)
+                         and not any(k in j.name for k in ('lookup_hashXs', 'lookup_utxos', 'deserialize'))]
+                free = [j for j in other if j not in getattr(self, 'hold', ())]
+                if free or other:
+                    (free or other)[0].deliver()
                     continue
                 if not self.loop.advance():
                     raise RuntimeError('settle_bp: deadlock')
@@ -174,8 +187,20 @@ class MempoolRun(IndexRun):
                 return
             if g.name == 'height':
                 polled += 1
+                if self.bp.caught_up and self.bp.reorg_count is None and self.bp.state.height >= tip.height \
+                        and self.bp.state.height == self.db.state.height \
+                        and bytes(self.bp.state.tip) not in [b.hash for b in self.tree.chain(self.best)]:
+                    # the index sits on a branch the daemon left for one that is not longer: this is not
+                    # noticed until the daemon's chain grows (C03); an operator-forced reorg brings it back
+                    n = self.bp.state.height - self._common_height()
+                    if n > 0:
+                        self.bp.force_chain_reorg(n)
             g.release()
         raise RuntimeError('settle_bp: did not settle')
+
+    @staticmethod
+    def is_bp_job(j):
+        return any(k in j.name for k in ('advance_block', 'flush_dbs', 'backup_block', 'delete', 'scan', 'find_legacy'))
 
     def mp_gate(self, name, pred=None):
         for g in self.gates:
@@ -300,7 +325,7 @@ class MempoolRun(IndexRun):
             self.loop.run_until_idle()
             if self.task.done():
                 return
-            jobs = [j for j in self.loop.pending_jobs() if 'lookup' not in j.name and 'deserialize' not in j.name]
+            jobs = [j for j in self.loop.pending_jobs() if self.is_bp_job(j)]
             if jobs:
                 job = jobs[0]
                 if 'flush_dbs' in job.name and self.bp.state.height != self.db.state.height:
@@ -394,6 +419,15 @@ class MempoolRun(IndexRun):
             j = self.mp_job(kind)
             if j:
                 j.deliver()
+                self.step_mempool()
+                return True
+        if not self.mp_gate('mp_list'):
+            # the refresh may be inside a notification (on_mempool awaits the fan-out to the sessions)
+            other = [j for j in self.loop.pending_jobs() if not self.is_bp_job(j)
+                     and not (self.window and j is self.window['job'])]
+            free = [j for j in other if j not in getattr(self, 'hold', ())]
+            if free or other:
+                (free or other)[0].deliver()
                 self.step_mempool()
                 return True
         return False
